@@ -187,7 +187,7 @@ pub enum MatItem {
     Bool { what: String, w: usize, native: bool },
     /// the coordinate bits a to_bits_le / to_bytes gadget emitted (x then y, `per` bits each, little
     /// endian): they must be canonical (below q) and denote the element
-    Coords { what: String, bits: Vec<usize>, per: usize, native: AE },
+    Coords { what: String, bits: Vec<Result<usize, bool>>, per: usize, native: AE },
 }
 
 pub struct Mat {
@@ -964,8 +964,13 @@ impl Machine {
             let mut cols = Vec::with_capacity(bits.len());
             let mut complete = true;
             for b in bits {
+                // constant bits (the zero padding of a byte string) are part of the value, not witnesses
+                if let Boolean::Constant(c) = b {
+                    cols.push(Err(*c));
+                    continue;
+                }
                 match mat_bool(String::new(), b, false)? {
-                    Some(MatItem::Bool { w, .. }) => cols.push(w),
+                    Some(MatItem::Bool { w, .. }) => cols.push(Ok(w)),
                     _ => complete = false,
                 }
             }
